@@ -211,7 +211,32 @@ fn c19_distance_not_nan() {
     kani::cover!(p == 2.0 && d[0] > 0.0, "p = 2 with a positive distance reachable");
 }
 
-/// C19.K.distance.symmetric: d(a, b) == d(b, a) bit for bit.
+fn any_grid() -> f64 {
+    let k: u8 = kani::any();
+    kani::assume(k <= 4);
+    k as f64 * 0.25
+}
+
+fn distance_pair_grid(p: f64) -> ([f64; 2], [f64; 2], [f64; 2], [f64; 2]) {
+    let g = game(&[2], &[], &[]);
+    let l = [any_grid(), any_grid()];
+    let r = [any_grid(), any_grid()];
+    let a = Strategies { game: &g, probs: [Box::new(l), Box::new([])] };
+    let b = Strategies { game: &g, probs: [Box::new(r), Box::new([])] };
+    (l, r, a.distance(&b, p), b.distance(&a, p))
+}
+
+/// C19.K.distance.symmetric (grid): d(a, b) == d(b, a) for all entries on the grid {0, 1/4, .., 1}.
+#[kani::proof]
+#[kani::unwind(5)]
+#[kani::stub(f64::powf, powf_model)]
+fn c19_distance_symmetric_grid() {
+    let p = any_exponent();
+    let (_, _, d, e) = distance_pair_grid(p);
+    assert!(d[0].to_bits() == e[0].to_bits() && d[1].to_bits() == e[1].to_bits(), "C19.K.distance.symmetric: symmetric in its arguments");
+}
+
+/// C19.K.distance.symmetric: d(a, b) == d(b, a) bit for bit, all entries in [0,1].
 #[kani::proof]
 #[kani::unwind(5)]
 #[kani::stub(f64::powf, powf_model)]
@@ -250,27 +275,24 @@ fn c19_distance_range_upper() {
     assert!(d[0] <= 1.0, "C19.K.distance.range_upper: distance is at most 1");
 }
 
-/// residual of the known finding: outside the documented failing class (profiles whose per-infoset
-/// L^p mass exceeds one) every entry of the result still obeys the bound, and the result is the
-/// AVERAGE over infosets (here: one infoset, so exactly the per-infoset sum).
+/// residual of the known finding (grid {0, 1/4, .., 1}, p in {1, 2}): outside the documented failing
+/// class (per-infoset mass sum_i |l_i - r_i|^p above one) the bound holds, and the result never
+/// exceeds the per-infoset maximum 2 -- any OTHER way of leaving [0,1] is still reported.
 #[kani::proof]
 #[kani::unwind(5)]
 #[kani::stub(f64::powf, powf_model)]
 fn c19_distance_range_residual() {
-    let (g, l, r) = distance_setup();
     let p = any_exponent();
-    let a = Strategies { game: &g, probs: [Box::new(l), Box::new([])] };
-    let b = Strategies { game: &g, probs: [Box::new(r), Box::new([])] };
-    let d = a.distance(&b, p);
+    let (l, r, d, _) = distance_pair_grid(p);
     let mut mass = 0.0;
     mass += powf_model((l[0] - r[0]).abs(), p);
     mass += powf_model((l[1] - r[1]).abs(), p);
-    // not in the known failing class  ==>  bound holds
     if mass <= 1.0 {
         assert!(d[0] <= 1.0, "C19.K.distance.range_residual: at most 1 whenever the per-infoset mass is at most 1");
     }
     assert!(d[0] <= 2.0, "C19.K.distance.range_residual: never above the per-infoset maximum 2");
     kani::cover!(mass <= 1.0 && d[0] > 0.5, "non-trivial residual case reachable");
+    kani::cover!(mass > 1.0, "known failing class reachable");
 }
 
 /// C19.K.distance.panics: profiles of different games panic.
